@@ -275,7 +275,8 @@ class LinearPolynomial(BaseDeferred):
             rhs = rhs.get_current_best_estimate()
         if isinstance(rhs, BaseDeferred):
             if self.coeffs:
-                return Deferred[int](lambda: wait(self) * wait(rhs))
+                # The polynomial itself stays symbolic: only the factor has to be a number
+                return Deferred[int](lambda: self * wait(rhs))
             else:
                 return rhs * self.constant_term
         return LinearPolynomial[int]({key: value * rhs for key, value in self.coeffs.items()}, self.constant_term * rhs)
@@ -289,44 +290,85 @@ class LinearPolynomial(BaseDeferred):
         return LinearPolynomial[int]({key: -value for key, value in self.coeffs.items()}, -self.constant_term)
 
     def _wait(self):
+        not_ready_keys = self._substitute_known_variables()
+
+        if not_ready_keys:
+            # While speculating, there is no point in evaluating the same
+            # variable again just to fail the same way (this made the time
+            # exponential in the length of a chain of forward references).
+            not_ready()
+
+            # The values are really needed now: compute what could not be
+            # computed speculatively (reporting errors if any), then substitute
+            # once more, so that the same quantity reached through different
+            # variables cancels out before anything else is evaluated.
+            for key in not_ready_keys:
+                if not key.is_awaiting:
+                    key.wait()
+            self._substitute_known_variables()
+
+        return sum(key.wait() * value for key, value in self.coeffs.items()) + self.constant_term
+
+    def _substitute_known_variables(self):
         new_coeffs = []
         new_constant_term = self.constant_term
 
-        some_not_ready = False
-        for key, value in self.coeffs.items():
+        not_ready_keys = []
+        expanding = []
+
+        def expand(key, value):
+            # Replaces a variable with what is known about it by now. This is
+            # applied to the variables of a polynomial substituted for a
+            # variable as well, so that the same quantity is always denoted by
+            # the same variable and cancels out (e.g. the link base: both the
+            # promise and the value it is settled to may occur).
+            nonlocal new_constant_term
+            if any(key is prev for prev in expanding):
+                new_coeffs.append((key, value))
+                return
+            original_key = key
             computed = False
+            pushed = 0
             with try_compute:
+                # Follow a chain of values that are defined as other values, but
+                # stop at one that is being computed right now (e.g. the link
+                # base while '.link' is evaluated)
                 key = key.wait()
+                while isinstance(key, BaseDeferred) and not isinstance(key, LinearPolynomial) and not key.is_awaiting and not any(key is prev for prev in expanding):
+                    expanding.append(key)
+                    pushed += 1
+                    key = key.wait()
                 computed = True
+            del expanding[len(expanding) - pushed:]
             if not computed:
                 # While speculating, give up at the first variable that is not
                 # known yet: trying the remaining ones as well made the time
                 # exponential in the number of statements whose size depends on
                 # their address ('.even', '.align') before the link base is known.
                 not_ready()
-                some_not_ready = True
+                not_ready_keys.append(key)
             if isinstance(key, BaseDeferred):
                 key = key.get_current_best_estimate()
 
             if isinstance(key, LinearPolynomial):
-                new_coeffs += [(key1, value1 * value) for key1, value1 in key.coeffs.items()]
+                expanding.append(original_key)
+                for key1, value1 in key.coeffs.items():
+                    expand(key1, value1 * value)
+                expanding.pop()
                 new_constant_term += key.constant_term * value
             elif isinstance(key, BaseDeferred):
                 new_coeffs.append((key, value))
             else:
                 new_constant_term += key * value
 
+        for key, value in self.coeffs.items():
+            expand(key, value)
+
         new_value = LinearPolynomial[int](new_coeffs, new_constant_term)
         self.coeffs = new_value.coeffs
         self.constant_term = new_value.constant_term
 
-        if some_not_ready:
-            # While speculating, there is no point in evaluating the same
-            # variable again just to fail the same way (this made the time
-            # exponential in the length of a chain of forward references).
-            not_ready()
-
-        return sum(key.wait() * value for key, value in self.coeffs.items()) + self.constant_term
+        return not_ready_keys
 
     def get_current_best_estimate(self):
         if self.coeffs:
